@@ -463,10 +463,7 @@ def falsify(ctx, seqs, res, viol, known):
                     continue
                 stats["reset_checked"] += 1
                 if valid_run and kv.get("rc") != "0":
-                    if cid in (3, 4, 5) and fresh:
-                        known.add("F31")
-                    else:
-                        viol.append((s, k, "src_reset returned an error: " + r))
+                    viol.append((s, k, "src_reset returned an error: " + r))
                 was_reset = True
                 if cid in (0, 1, 2):
                     since_reset_ratio = None
@@ -812,7 +809,7 @@ def run(ctx):
     # ---------- known findings / verdicts
     active = {f.get("id"): f for f in common.known_active(PID)} if hasattr(common, "known_active") else {}
     for fid in sorted(known):
-        what = {"F31": "src_reset on converter ids 3/4 (RESET_ON_CLEAR) re-creates the engine at the OLD ratio; a different src_ratio afterwards is refused and the refusal is lost in soxr_set_error: totals follow the old ratio; src_reset on a never-used id 3/4 converter returns -1",
+        what = {"F31": "src_reset on converter ids 3/4 (RESET_ON_CLEAR) re-creates the engine at the OLD ratio; a different src_ratio afterwards is refused and the refusal is lost in soxr_set_error: totals follow the old ratio",
                 "F32": "src_error(NULL) dereferences the NULL converter (crash instead of an error code)",
                 "F33": "src_simple copies two uninitialised variables into input_frames_used/output_frames_gen when soxr_create fails (src_ratio <= 0 or NaN)"}[fid]
         if fid in active:
